@@ -304,6 +304,14 @@ def run(c: Check):
             c.violation("C14:state-invariant-after-history" + identgen.selfmark_suffix(coq_cases[i]["desc"], pairs, coq_cases[i]["after"]["nodes"]),
                         "the state the history ends in breaks the invariant of the cache theorems: " + identgen.diag_text(pairs),
                         dict(desc=coq_cases[i]["desc"], ops=coq_cases[i]["ops"], diagnosis=pairs))
+    # directed probe outside the modelled domain: configuration-valued defaults (compared through TypeConfig.__eq__)
+    pr = run_impl("drive_cfgdefault.py", {}, timeout=300)
+    c.count("probe:config-valued-default")
+    if pr["c14_before"] != pr["c14_after"] or pr["c14_jobdir"] != pr["c14_after"]:
+        c.violation("C14:identifier-changed-by-sealing:config-valued-default",
+                    "TD() with a: Param[A] = A(x=1), A holding a generated path: the identifier before submit() differs from "
+                    "the one after (the generated value enters the comparison with the default)",
+                    dict(desc=dict(nodes=[], actions=[]), ops=[], probe="harness/drive_cfgdefault.py", got=pr))
     c.level_assumptions = [
         "SHA-256 is a parameter of the theorems (Gallina SHA-256 validated against hashlib by the correspondence)",
         "frozen_identity is proved for acyclic graphs (identifiers = the fuel-free table specification); cyclic graphs are covered by correspondence + oracle",
